@@ -2,7 +2,7 @@ SPECIFICATION Spec
 CONSTANTS
   Sizes = {0, 1, 4095, 4096, 4097}
   Lays <- MC_BigLays
-  Modes = {"r", "rb", "w", "wb", "a", "ab", "r+", "rb+", "w+", "wb+", "a+", "ab+", "tmp"}
+  Modes = {"r", "rb", "w", "wb", "a", "ab", "r+", "rb+", "w+", "wb+", "a+", "ab+", "r+b", "w+b", "a+b", "tmp"}
   RCounts = {0, 1, 2, 4096, 5000}
   WCounts = {0, 1, 2, 4096, 5000}
   SOffs <- MC_BigSOffs
